@@ -118,4 +118,82 @@ theorem redirectOrNew_addr (c : Client) (addr : Bytes) (prev : Conn) (slot : Nat
     · exact h addr cc hid hg
     · rfl
 
+/-- membership form of `ConnsOK` (implies it) -/
+def ConnsOK' (m : List (Bytes × Conn × Bool)) : Prop := ∀ e ∈ m, e.2.1.addr = e.1
+
+theorem connsOK_of' (c : Client) (h : ConnsOK' c.conns) : ConnsOK c := by
+  intro a cc hid hg
+  unfold cget at hg
+  cases hf : c.conns.find? (fun e => decide (e.1 = a)) with
+  | none => rw [hf] at hg; cases hg
+  | some e =>
+    rw [hf] at hg
+    simp only [Option.map_some, Option.some.injEq] at hg
+    have hmem := List.mem_of_find?_eq_some hf
+    have hkey : e.1 = a := by simpa using List.find?_some hf
+    have := h e hmem
+    rw [← hkey, ← this, hg]
+
+theorem cset_ok' (a : Bytes) (v : Conn × Bool) (m : List (Bytes × Conn × Bool)) (h : ConnsOK' m) (hv : v.1.addr = a) :
+    ConnsOK' (cset a v m) := by
+  intro e he
+  unfold cset at he
+  split at he
+  · obtain ⟨x, hx, hf⟩ := List.mem_map.mp he
+    by_cases hc : x.1 = a
+    · rw [if_pos hc] at hf; rw [← hf]; exact hv
+    · rw [if_neg hc] at hf; rw [← hf]; exact h x hx
+  · rcases List.mem_append.mp he with h1 | h1
+    · exact h e h1
+    · rw [List.mem_singleton.mp h1]; exact hv
+
+/-- `redirectOrNew` keeps every connection filed under its own address -/
+theorem redirectOrNew_ok' (c : Client) (addr : Bytes) (prev : Conn) (slot : Nat) (mv : Bool) (h : ConnsOK' c.conns) :
+    ConnsOK' (redirectOrNew c addr prev slot mv).2.conns := by
+  unfold redirectOrNew
+  simp only
+  split
+  · split
+    · exact h
+    · exact cset_ok' addr _ c.conns h rfl
+  · exact cset_ok' addr _ c.conns h rfl
+
+/-- the connection map built by `_refresh` files every connection under its own address -/
+theorem refreshConns_ok' (o : Opt) (c : Client) (gs : Groups) (h : ConnsOK' c.conns) :
+    ConnsOK' (refreshConns o c gs).1 := by
+  unfold refreshConns
+  simp only
+  have hstep : ∀ (acc : List (Bytes × Conn × Bool) × Nat) (a : Bytes) (hidden : Bool), ConnsOK' acc.1 →
+      ConnsOK' (if acc.1.any (fun e => decide (e.1 = a)) = true then acc
+        else match cget a c.conns with
+          | some (cc, _) => (acc.1 ++ [(a, cc, hidden)], acc.2)
+          | none => (acc.1 ++ [(a, ({ addr := a, serial := acc.2 } : Conn), hidden)], acc.2 + 1)).1 := by
+    intro acc a hidden hacc
+    split
+    · exact hacc
+    · cases hg : cget a c.conns with
+      | none =>
+        intro e he
+        rcases List.mem_append.mp he with h1 | h1
+        · exact hacc e h1
+        · rw [List.mem_singleton.mp h1]
+      | some p =>
+        obtain ⟨cc, hid⟩ := p
+        intro e he
+        rcases List.mem_append.mp he with h1 | h1
+        · exact hacc e h1
+        · rw [List.mem_singleton.mp h1]
+          exact connsOK_of' c h a cc hid hg
+  have hfold : ∀ (as : List Bytes) (hidden : Bool) (acc : List (Bytes × Conn × Bool) × Nat), ConnsOK' acc.1 →
+      ConnsOK' (as.foldl (fun acc a =>
+        if acc.1.any (fun e => decide (e.1 = a)) = true then acc
+        else match cget a c.conns with
+          | some (cc, _) => (acc.1 ++ [(a, cc, hidden)], acc.2)
+          | none => (acc.1 ++ [(a, ({ addr := a, serial := acc.2 } : Conn), hidden)], acc.2 + 1)) acc).1 := by
+    intro as hidden
+    induction as with
+    | nil => intro acc hacc; exact hacc
+    | cons a rest ih => intro acc hacc; exact ih _ (hstep acc a hidden hacc)
+  exact hfold _ true _ (hfold _ false _ (fun e he => by cases he))
+
 end Rv.ClusterRouteL
